@@ -15,6 +15,7 @@ indexes, time) is an input: that it is only produced for an authenticated peer i
 import Nebula.Lemmas.HsManagerStep
 import Nebula.Lemmas.HsCompose
 import Nebula.Lemmas.HsVia
+import Nebula.Lemmas.HsNetVia
 
 namespace Nebula.Props.C09
 open Nebula.HsManager Nebula.Lemmas.HsManager
@@ -648,5 +649,48 @@ example : let y := (NodeX.init cfg0).beginHandshake AllowList.everything (.direc
     y.2.tx = [.base (.hs 0 [3])] := by decide
 -- non-vacuity of the denial: underlay 1 refused for address 5 → the responder installs nothing; underlay 3 is fine
 example : ((NodeX.init cfg0).beginHandshake alDeny5 (.direct 3) 77 (some c0) 2 0).1.n.main ≠ {} := by decide
+
+section
+open Nebula.HsNet
+
+/-- The correspondence stream runs the EXTENDED network; where no allow list is configured and every tunnel of the
+receiving node has a remote (no relayed handshake happened there), a direct delivery in the extended network IS the
+delivery of the base network (Model/HsNet.lean) that C10 / C31 / C32 are stated over. -/
+theorem unrestricted_direct_delivery_is_base (nx : NetX) (h : Handle) (src to : Nat) (e : Ext)
+    (he : nx.ext[to]? = some e) (hal : e.al = {})
+    (hrem : ∀ nd, nx.w.node? to = some nd → ∀ b t, t ∈ nd.main.getList b → t.remote.isSome) :
+    (nx.deliverVia h (.direct src) to).map (fun r => (r.1.w, r.2.toOut)) = nx.w.deliverTo h src to := by
+  unfold NetX.deliverVia Net.deliverTo NetX.nodeX?
+  have hAl : nx.alOf to = AllowCfg.toList {} := by simp [NetX.alOf, he, hal]
+  cases hn : nx.w.node? to with
+  | none => simp
+  | some nd =>
+    have hrem' := hrem nd hn
+    rw [he]
+    cases hp : alookup h nx.w.pkts with
+    | none => simp [hp]
+    | some ci =>
+      obtain ⟨creator, info⟩ := ci
+      simp only [hp]
+      cases hc : nx.w.node? creator with
+      | none => simp
+      | some cn =>
+        cases info with
+        | s1 hh initIdx time ver =>
+          dsimp only
+          simp only [NodeX.step, hAl]
+          rw [direct_allowed_stage1_is_base _ _ _ _ _ _ _ (unrestricted_unknown src)
+            (fun c _ => unrestricted_all c.certAddrs src) hrem']
+          simp [Node.step, NetX.setNodeX, toOut_toX]
+        | s2 hh respIdx initIdx time ver replyTo =>
+          dsimp only
+          simp only [NodeX.step, hAl]
+          rw [direct_allowed_stage2_is_base _ _ _ _ _ (unrestricted_unknown src)
+            (fun hh _ => unrestricted_all [hh.vpnAddr] src)]
+          simp [Node.step, NetX.setNodeX, toOut_toX]
+          constructor <;> congr
+
+
+end
 
 end Nebula.Props.C09
